@@ -18,11 +18,15 @@
 (* CONNECTING.  (The property text constrains how READY is reached and how *)
 (* TRANSIENT_FAILURE and SHUTDOWN are left; it does not forbid this edge,  *)
 (* rule R2.)                                                               *)
+(* An attempt abandoned by UpdateAddresses / Shutdown / Close may end      *)
+(* later with an error of its own (a dialer that does not honour the       *)
+(* cancellation promptly): stale[sc]; its outcome must not change the      *)
+(* subchannel's state (StaleFail).                                         *)
 (***************************************************************************)
 EXTENDS Integers, Sequences
 CONSTANTS NS, MaxEv, MaxUA, AllowConnLost, Mutant
-VARIABLES st, happened, queue, seen, chClosed, nev, nua
-cvars == <<st, happened, queue, seen, chClosed, nev, nua>>
+VARIABLES st, happened, queue, seen, chClosed, nev, nua, stale
+cvars == <<st, happened, queue, seen, chClosed, nev, nua, stale>>
 SCs == 1..NS
 States == {"IDLE", "CONNECTING", "READY", "TRANSIENT_FAILURE", "SHUTDOWN"}
 
@@ -33,13 +37,15 @@ Allowed(a, b) ==
   \/ a = "TRANSIENT_FAILURE" /\ b \in {"IDLE", "SHUTDOWN"}
 
 CInit == /\ st = [sc \in SCs |-> "IDLE"] /\ happened = [sc \in SCs |-> <<>>] /\ queue = <<>>
-         /\ seen = [sc \in SCs |-> <<>>] /\ chClosed = FALSE /\ nev = 0 /\ nua = 0
+         /\ seen = [sc \in SCs |-> <<>>] /\ chClosed = FALSE /\ nev = 0 /\ nua = 0 /\ stale = [sc \in SCs |-> FALSE]
 
 \* updateConnectivityState under ac.mu: set, then schedule the listener call on the serializer
 Change(sc, s) == /\ nev < MaxEv /\ nev' = nev + 1
                  /\ st' = [st EXCEPT ![sc] = s] /\ happened' = [happened EXCEPT ![sc] = Append(@, s)]
                  /\ queue' = IF chClosed THEN queue ELSE Append(queue, <<sc, s>>)
                  /\ UNCHANGED <<seen, chClosed, nua>>
+Keep == UNCHANGED stale
+Abandon(sc) == stale' = [stale EXCEPT ![sc] = @ \/ st[sc] = "CONNECTING"]
 
 \* SubConn.UpdateAddresses; kind: "same" (equal list), "new" (disjoint list), "keep" (the current address plus another)
 UpdAddrs(sc, kind) ==
@@ -51,20 +57,31 @@ UpdAddrs(sc, kind) ==
        THEN /\ st' = [st EXCEPT ![sc] = "CONNECTING"] /\ happened' = [happened EXCEPT ![sc] = Append(@, "CONNECTING")]
             /\ queue' = Append(queue, <<sc, "CONNECTING">>)
        ELSE UNCHANGED <<st, happened, queue>>
+  /\ (IF kind # "same" THEN Abandon(sc) ELSE Keep)
   /\ UNCHANGED <<seen, chClosed, nev>>
 
-Connect(sc)     == st[sc] = "IDLE" /\ ~chClosed /\ Change(sc, "CONNECTING")
-DialOk(sc)      == st[sc] = "CONNECTING" /\ Change(sc, "READY")
-DialFail(sc)    == st[sc] = "CONNECTING" /\ Change(sc, "TRANSIENT_FAILURE")
-ConnLost(sc)    == AllowConnLost /\ st[sc] = "CONNECTING" /\ Change(sc, "IDLE")
-BackoffDone(sc) == st[sc] = "TRANSIENT_FAILURE" /\ Change(sc, "IDLE")
-Disconnect(sc, how) == st[sc] = "READY" /\ Change(sc, "IDLE")       \* how: GOAWAY or connection closed
-ScShutdown(sc)  == st[sc] # "SHUTDOWN" /\ ~chClosed /\ Change(sc, "SHUTDOWN")
+\* the abandoned attempt ends with an error of its own: ignored (Mutant 4: treated as a failure of the subchannel)
+StaleFail(sc) ==
+  /\ stale[sc] /\ stale' = [stale EXCEPT ![sc] = FALSE]
+  /\ IF Mutant = 4 /\ ~chClosed
+       THEN /\ st' = [st EXCEPT ![sc] = "TRANSIENT_FAILURE"] /\ happened' = [happened EXCEPT ![sc] = Append(@, "TRANSIENT_FAILURE")]
+            /\ queue' = Append(queue, <<sc, "TRANSIENT_FAILURE">>)
+       ELSE UNCHANGED <<st, happened, queue>>
+  /\ UNCHANGED <<seen, chClosed, nev, nua>>
+
+Connect(sc)     == st[sc] = "IDLE" /\ ~chClosed /\ Change(sc, "CONNECTING") /\ Keep
+DialOk(sc)      == st[sc] = "CONNECTING" /\ Change(sc, "READY") /\ Keep
+DialFail(sc)    == st[sc] = "CONNECTING" /\ Change(sc, "TRANSIENT_FAILURE") /\ Keep
+ConnLost(sc)    == AllowConnLost /\ st[sc] = "CONNECTING" /\ Change(sc, "IDLE") /\ Keep
+BackoffDone(sc) == st[sc] = "TRANSIENT_FAILURE" /\ Change(sc, "IDLE") /\ Keep
+Disconnect(sc, how) == st[sc] = "READY" /\ Change(sc, "IDLE") /\ Keep       \* how: GOAWAY or connection closed
+ScShutdown(sc)  == st[sc] # "SHUTDOWN" /\ ~chClosed /\ Change(sc, "SHUTDOWN") /\ Abandon(sc)
 
 \* ClientConn.Close: balancer wrapper closed (serializer cancelled), every addrConn torn down
 ChanClose == /\ ~chClosed /\ nev < MaxEv /\ nev' = nev + 1 /\ chClosed' = TRUE /\ queue' = <<>>
              /\ st' = [sc \in SCs |-> "SHUTDOWN"]
              /\ happened' = [sc \in SCs |-> IF st[sc] = "SHUTDOWN" THEN happened[sc] ELSE Append(happened[sc], "SHUTDOWN")]
+             /\ stale' = [sc \in SCs |-> stale[sc] \/ st[sc] = "CONNECTING"]
              /\ UNCHANGED <<seen, nua>>
 
 \* the serializer runs the oldest scheduled callback
@@ -72,7 +89,7 @@ Deliver == /\ queue # <<>>
            /\ LET k == IF Mutant = 1 THEN Len(queue) ELSE 1  e == queue[k] IN
               /\ seen' = [seen EXCEPT ![e[1]] = Append(@, e[2])]
               /\ queue' = [i \in 1..(Len(queue) - 1) |-> IF i < k THEN queue[i] ELSE queue[i + 1]]
-           /\ UNCHANGED <<st, happened, chClosed, nev, nua>>
+           /\ UNCHANGED <<st, happened, chClosed, nev, nua, stale>>
 
 ----
 IsPrefix(a, b) == Len(a) <= Len(b) /\ \A i \in 1..Len(a) : a[i] = b[i]
